@@ -36,8 +36,14 @@ class ListWalkerProtocol(Protocol):
     methods = {
         "get_focus": PMethod(Tup(Opt(WIDGET), Int), params=[]),
         "set_focus": PMethod(None, params=["position"], mutates=True, ensures=_ens_set_focus),
+        # (widget, position) of the neighbour, or (None, None) at the end of the list; functions of the walker's state.
+        # The position component of a (None, None) answer is modelled as an arbitrary integer: the code under contract
+        # never looks at it (calculate_visible stops at once; render's `next_pos is not None` stands next to
+        # `widget is not None` in the same `all(...)`).
+        "get_prev": PMethod(Tup(Opt(WIDGET), Int), params=["position"]),
+        "get_next": PMethod(Tup(Opt(WIDGET), Int), params=["position"]),
     }
-    has = {"get_focus": True, "set_focus": True}
+    has = {"get_focus": True, "set_focus": True, "get_prev": True, "get_next": True}
 
     def call(self, ip, st, recv, name, args, kwargs):
         if name == "set_focus":
